@@ -21,7 +21,6 @@ import (
 	"github.com/AliyunContainerService/terway/pkg/tc"
 	"github.com/AliyunContainerService/terway/plugin/datapath"
 	"github.com/AliyunContainerService/terway/plugin/driver/utils"
-
 )
 
 func init() { register("C14", &checkDef{level: "exploration", fn: runC14}) }
